@@ -54,9 +54,13 @@ fn format_field(name: &str, value: &str) -> String {
         | "Enhances"
         | "Pre-Depends"
         | "Breaks" => {
-            let relations: Relations = value.parse().unwrap();
-            let relations = relations.wrap_and_sort();
-            relations.to_string()
+            // substitution variables are fine here; a value that does not parse is left alone
+            let (relations, errors) = Relations::parse_relaxed(value, true);
+            if errors.is_empty() {
+                relations.wrap_and_sort().to_string()
+            } else {
+                value.to_string()
+            }
         }
         _ => value.to_string(),
     }
